@@ -16,6 +16,8 @@ Tie (harness/quad.cpp, which #includes net_model.cpp of the tree under test):
         results) and times 2.5, 7 (within SOLVE_TOL of the coordinate span, anchored systems only)   [validated, not proved]
   PLACE Circuit::placeGlobal with weights and penalty.initialValue times 2, 1/2: every callback and the result equal;
         times 2.5, 7: first lower-bound callback within 1 + 1e-3 * span; x/yTopology store the circuit's weights.
+        Stream "placep": the same with a tail of ACCEPTED parameter values other than the defaults (global.noise exactly 0,
+        every checked field of GlobalPlacerParameters at the ends of its accepted interval; see genPlaceP in harness/quad.cpp).
   FASM  the assembly at weights/strengths * 1 and * 2^k against the Flocq binary32 model coq/QuadFloat.v evaluated inside Coq
         (vm_compute), BIT FOR BIT; + the statement of c17_float_assembly_pow2_exact on the C++ output (side condition true in
         both runs => every triplet value and rhs entry is ldexp(original, k))
@@ -675,11 +677,26 @@ def check_solve(lines, impl, stats):
     return bad
 
 
+PLACE_PARAM_NAMES = {0: "effort", 1: "maxNbSteps", 2: "nbInitialSteps", 3: "nbStepsBeforeRoughLegalization", 4: "gapTolerance", 5: "distanceTolerance",
+                     6: "penaltyUpdateDistance", 7: "penaltyUpdateBackoff", 8: "exportBlending", 9: "noise", 10: "penalty.cutoffDistance",
+                     11: "penalty.cutoffDistanceUpdateFactor", 12: "penalty.areaExponent", 13: "penalty.updateFactor", 14: "penalty.targetBlending",
+                     15: "penalty.initialValue", 16: "approximationDistance", 17: "approximationDistanceUpdateFactor",
+                     18: "maxNbConjugateGradientSteps", 19: "conjugateGradientErrorTolerance", 20: "roughLegalization.nbSteps", 21: "binSize",
+                     22: "lineReoptSize", 23: "lineReoptOverlap", 24: "diagReoptSize", 25: "diagReoptOverlap", 26: "squareReoptSize",
+                     27: "squareReoptOverlap", 28: "quadraticPenalty", 29: "roughLegalization.targetBlending", 30: "costModel",
+                     31: "unidimensionalTransport", 32: "sideMargin", 33: "coarseningLimit"}
+N_PLACEP_Q = 250      # quick tier: PLACE cases with a parameter tail (noise exactly 0 in 60 %, the other global parameters at accepted bounds)
+
+
 def check_place(lines, impl, stats):
     bad = []
     for l, i in zip(lines, impl):
         t = l.split()
         W = int(t[4]); nrows = int(t[5]); rowh = int(t[6])
+        if i.startswith("REJECTED"):
+            # the parameter tail is outside what ColoquinteParameters::check() accepts: outside the domain of C17 (counted, never silent)
+            stats["place_rejected_parameter_sets"] = stats.get("place_rejected_parameter_sets", 0) + 1
+            continue
         if " # W" not in i:
             bad.append((l, "placeGlobal did not return: " + i[:200])); continue
         body, wts = i.split(" # W")
@@ -695,6 +712,31 @@ def check_place(lines, impl, stats):
             nfixed = len(pins) - len(mov)
             if mov and (len(mov) + (1 if nfixed else 0) >= 2 or nfixed >= 2):
                 given.append(Fraction(w4, 4))
+        # parameter tail (stream "placep"): accepted values other than the defaults
+        par = {}
+        if r.p < len(r.t):
+            for _ in range(r.nx()):
+                pid = r.nx(); par[pid] = Fraction(r.nx(), r.nx())
+        # the tolerance clause for the factors 2.5 and 7 is stated for a CG tolerance in [1e-6, 1e-4] and >= 100 iterations (domain of this
+        # check): a deliberately unconverged conjugate gradient (<= 2 iterations, stop at a relative residual of 1) or one that cannot reach
+        # its threshold in binary32 (1e-8: it runs to the iteration limit) may stop elsewhere; the power-of-two clause is compared always
+        loose_cg = par.get(18, 1000) < 100 or (19 in par and not Fraction(1, 1000000) <= par[19] <= Fraction(1, 10000))
+        trace = [s.split()[0] for s in parts[0].split(";") if s.strip()]
+        pen_steps = max(0, trace.count("TL") - 1 - int(par.get(2, 0)))      # lower-bound steps solved WITH the penalty term
+        pst = stats.setdefault("place_stream", {"with_parameter_tail": 0, "noise_exactly_0": 0, "noise_0_with_penalty_steps": 0,
+                                                "with_penalty_steps": 0, "penalty_steps_total": 0, "penalty_update_callbacks": 0,
+                                                "nondyadic_factors_skipped_unconverged_cg": 0, "parameter_values": {}})
+        if par:
+            pst["with_parameter_tail"] += 1
+            for pid, v in par.items():
+                key = "%s=%s" % (PLACE_PARAM_NAMES.get(pid, pid), v)
+                pst["parameter_values"][key] = pst["parameter_values"].get(key, 0) + 1
+        if par.get(9) == 0:
+            pst["noise_exactly_0"] += 1
+            pst["noise_0_with_penalty_steps"] += 1 if pen_steps else 0
+        pst["with_penalty_steps"] += 1 if pen_steps else 0
+        pst["penalty_steps_total"] += pen_steps
+        pst["penalty_update_callbacks"] += trace.count("TP")
         for side in wts.split(" / "):
             back = [fr_impl(" ".join(side.split()[k:k + 2])) for k in range(0, len(side.split()), 2)]
             if len(back) == len(given) and back != given:
@@ -711,7 +753,9 @@ def check_place(lines, impl, stats):
             else:
                 span = max(W, nrows * rowh)
                 first = [int(v) for v in parts[0].split(";")[0].split()[1:]]
-                for f, p in zip((2.5, 7), parts[3:5]):
+                if loose_cg:
+                    pst["nondyadic_factors_skipped_unconverged_cg"] += 1
+                for f, p in zip((2.5, 7), [] if loose_cg else parts[3:5]):
                     fk = [int(v) for v in p.split(";")[0].split()[1:]]
                     dmax = max(abs(a - c) for a, c in zip(first, fk))
                     stats["place_max_dev"] = max(stats["place_max_dev"], dmax)
@@ -735,6 +779,8 @@ def run(ctx):
         asm += common.harness_gen(harness, ["asm", s, (4000 if q else 60000) // len(seeds)])
         solve += common.harness_gen(harness, ["solve", s, (1500 if q else 30000) // len(seeds)])
         place += common.harness_gen(harness, ["place", s, (40 if q else 600) // len(seeds)])
+        # accepted parameter values other than the defaults: global.noise exactly 0, every checked field at its accepted bounds
+        place += common.harness_gen(harness, ["placep", s, (N_PLACEP_Q if q else 3000) // len(seeds)])
         # exact coincidences of pin positions (all pins of a net at one position, two coincident, on a fixed pin, stacked cells), models 1..4
         asm += common.harness_gen(harness, ["coin", s, (N_COIN_Q if q else 30000) // len(seeds)])
         solve += common.harness_gen(harness, ["scoin", s, (N_SCOIN_Q if q else 9000) // len(seeds)])
@@ -792,7 +838,18 @@ def run(ctx):
                         "epsilon; penalty target at the placement.  On these the entries are fixed by the floor net weight / max(epsilon, distance) "
                         "of Quad.v (over Q) and QuadFloat.v (Flocq binary32): compared exactly / within 1e-5 (ASM) and bit for bit (FASM); an "
                         "infinite or NaN entry of the C++ system where the model is finite, and a non-finite solver coordinate, are violations "
-                        "with the case line",
+                        "with the case line.  PLACE (Circuit::placeGlobal, distribution.place_stream): the stream 'placep' carries a parameter "
+                        "tail with ACCEPTED non-default values (ColoquinteParameters::check() is called first; rejected sets are counted, "
+                        "never silent): global.noise exactly 0 in 60 % (else 2, 1/1024, 1), and every field check() constrains "
+                        "(nbInitialSteps, nbStepsBeforeRoughLegalization, gap/distance tolerance 0, penaltyUpdateDistance/Backoff, "
+                        "exportBlending -0.5..1.5, penalty cutoff 1e-6..1000 / update factors 0.8, 1.2 / areaExponent 0.49, 1.01 / "
+                        "updateFactor 1+2^-20, 2-2^-20 / targetBlending 0.1f, 1.1f / initialValue 2^-10..4, approximationDistance 1e-6..1000, "
+                        "CG steps 1, 2 / tolerance 1e-8, 1, roughLegalization nbSteps 0, binSize 1, 25, reopt sizes 1..64, quadraticPenalty 0, 1, "
+                        "targetBlending -0.1, 0.9f, all cost models, effort 1..9, maxNbSteps 1..24) at the ends of its accepted interval with "
+                        "probability 25 % each; cases with lower-bound steps solved WITH the penalty term are counted (with_penalty_steps, "
+                        "noise_0_with_penalty_steps); for 2 and 1/2 every exposed placement (tagged by step kind) and the result are "
+                        "compared exactly, for 2.5 and 7 the first lower bound (skipped when the CG settings are outside [1e-6, 1e-4] / "
+                        ">= 100 iterations)",
                 "asm_cases_with_all_pins_of_a_3plus_pin_net_coincident": len(collapsed),
                 "samples": [asm[0][:300], asm[len(asm) // 2][:300], solve[0][:300], place[0][:300]],
                 "distribution": stats,
